@@ -411,6 +411,97 @@ Proof.
   match goal with Ht : thread_ops _ _ _ = Some _ |- _ => unfold thread_ops in Ht; exact (ops_of_ok lookup id bits _ _ _ _ Ht) end.
 Qed.
 
+(* ---- the time table of the appended encoders *)
+Definition ftt (e : encoder) : list N := flat_map b_tt (e_blocks e).
+
+Lemma append_ftt e o a : append lz_compress e o = Ok a ->
+  exists e1 o1, finish_block lz_compress e = Ok e1 /\ finish_block lz_compress o = Ok o1 /\ ftt a = ftt e1 ++ ftt o1 /\ e_new a = false.
+Proof.
+  unfold append. intros H.
+  destruct (finish_block lz_compress e) as [e1| |] eqn:E1; try discriminate. cbn [bind] in H.
+  destruct (finish_block lz_compress o) as [o1| |] eqn:E2; try discriminate. cbn [bind] in H.
+  assert (Hn1 : e_new e1 = false).
+  { unfold finish_block in E1. destruct (e_new e) eqn:En; cbn [negb] in E1; [|injection E1 as <-; exact En].
+    destruct (finish_signals lz_compress (e_signals e) []) as [[sg of] da]. destruct (last_opt (e_ttr e)); try discriminate. cbn [of_option bind] in E1.
+    destruct (hd_error (e_ttr e)); try discriminate. cbn [of_option bind] in E1. injection E1 as <-. reflexivity. }
+  exists e1, o1. split; [reflexivity|]. split; [reflexivity|].
+  destruct (e_blocks o1) as [|fb r] eqn:Eb.
+  - injection H as <-. unfold ftt. rewrite Eb. cbn [flat_map]. now rewrite app_nil_r.
+  - destruct (last_opt (e_blocks e1)); try discriminate. cbn [of_option bind] in H.
+    destruct (last_opt (b_tt b)); try discriminate. cbn [of_option bind] in H.
+    destruct (_ <=? _); try discriminate. injection H as <-. unfold ftt. cbn [e_blocks e_new]. rewrite Eb, flat_map_app. split; [reflexivity|exact Hn1].
+Qed.
+
+Lemma append_all_ftt : forall others acc e tacc ts, append_all lz_compress acc others = Ok e ->
+  (exists a1, finish_block lz_compress acc = Ok a1 /\ ftt a1 = tacc) ->
+  Forall2 (fun o t => exists o1, finish_block lz_compress o = Ok o1 /\ ftt o1 = t) others ts ->
+  exists e1, finish_block lz_compress e = Ok e1 /\ ftt e1 = tacc ++ concat ts.
+Proof.
+  induction others as [|o others IH]; intros acc e tacc ts H Hacc Hts; cbn [append_all] in H.
+  - injection H as <-. inversion Hts; subst. cbn [concat]. now rewrite app_nil_r.
+  - destruct (append lz_compress acc o) as [a| |] eqn:Ea; try discriminate. cbn [bind] in H.
+    inversion Hts as [|? t ? ts' (o1 & Ho1 & Ht) Hts']; subst.
+    destruct (append_ftt _ _ _ Ea) as (e1' & o1' & He1 & Ho1' & Hf & Hn).
+    destruct Hacc as (a1 & Ha1 & Hta). rewrite Ha1 in He1. injection He1 as <-. rewrite Ho1 in Ho1'. injection Ho1' as <-.
+    destruct (IH a e (ftt a1 ++ ftt o1) ts' H) as (e1 & He1 & Hfe).
+    + exists a. split; [now apply finish_block_idem|exact Hf].
+    + exact Hts'.
+    + exists e1. split; [exact He1|]. rewrite Hfe, <- Hta. cbn [concat]. now rewrite app_assoc.
+Qed.
+
+Lemma sorted_before (acc : list N) t l : StronglySorted N.lt (acc ++ t :: l) -> Forall (fun x => x < t) acc.
+Proof.
+  induction acc as [|a acc IH]; intros H; [constructor|]. cbn [app] in H. inversion H as [|? ? Hs Hall]; subst.
+  constructor; [|now apply IH]. rewrite Forall_forall in Hall. apply Hall. apply in_or_app. right. now left.
+Qed.
+
+Lemma accepted_sorted_gen : forall l acc, StronglySorted N.lt (acc ++ l) -> fold_left accept l acc = acc ++ l.
+Proof.
+  induction l as [|t l IH]; intros acc H; cbn [fold_left]; [now rewrite app_nil_r|].
+  assert (Ea : accept acc t = acc ++ [t]).
+  { unfold accept. destruct (last_of acc) as [x|] eqn:El; [|reflexivity].
+    pose proof (sorted_before acc t l H) as Hall. rewrite Forall_forall in Hall. specialize (Hall x (last_of_in _ _ El)).
+    destruct (N.ltb_spec x t); [reflexivity|lia]. }
+  rewrite Ea, IH by (now rewrite <- app_assoc). now rewrite <- app_assoc.
+Qed.
+
+Lemma accepted_sorted l : StronglySorted N.lt l -> accepted l = l.
+Proof. intros H. unfold accepted. now rewrite accepted_sorted_gen. Qed.
+
+Lemma times_of_concat opss : times_of (concat opss) = concat (map times_of opss).
+Proof. induction opss as [|o r IH]; [reflexivity|]. cbn [concat map]. now rewrite times_of_app, IH. Qed.
+
+Lemma sorted_pieces : forall (tss : list (list N)), StronglySorted N.lt (concat tss) -> Forall (StronglySorted N.lt) tss.
+Proof.
+  induction tss as [|a r IH]; intros H; [constructor|]. cbn [concat] in H.
+  constructor; [eapply sorted_app_l; exact H|apply IH; eapply sorted_app_r; exact H].
+Qed.
+
+Lemma accepted_pieces (opss : list (list enc_op)) : Forall (StronglySorted N.lt) (map times_of opss) ->
+  concat (map (fun o => accepted (times_of o)) opss) = concat (map times_of opss).
+Proof.
+  induction opss as [|o r IH]; intros H; [reflexivity|]. cbn [map concat] in *. apply Forall_cons_iff in H as [H1 H2].
+  rewrite accepted_sorted by exact H1. f_equal. now apply IH.
+Qed.
+
+(* the time table of the multi-threaded load: the threads' accepted tables one after the other *)
+Lemma mt_time_table tpes : forall opss encs first others e blocks ttb,
+  Forall2 (fun o en => run_ops parse_f64 lz_compress cap (enc_new tpes) o = Ok en) opss encs ->
+  encs = first :: others -> append_all lz_compress first others = Ok e -> enc_finish lz_compress e = Ok (blocks, ttb) ->
+  ttb = concat (map (fun o => accepted (times_of o)) opss).
+Proof.
+  intros opss encs first others e blocks ttb Hruns -> Happ Hfin.
+  assert (Hts : Forall2 (fun en t => exists o1, finish_block lz_compress en = Ok o1 /\ ftt o1 = t) (first :: others)
+                        (map (fun o => accepted (times_of o)) opss)).
+  { clear Happ Hfin. remember (first :: others) as encs eqn:E. clear E. induction Hruns as [|o en opss encs Hr Hruns IH]; [constructor|].
+    cbn [map]. constructor; [|exact IH].
+    destruct (time_table_spec parse_f64 lz_compress cap cap_pos tpes o en Hr) as (bb & Hf). unfold enc_finish in Hf.
+    destruct (finish_block lz_compress en) as [o1| |]; try discriminate. cbn [bind] in Hf. injection Hf as _ Hf. exists o1. split; [reflexivity|exact Hf]. }
+  destruct opss as [|o0 opss]; [inversion Hts|]. cbn [map] in *. inversion Hts as [|? ? ? ? Hfirst Hothers]; subst.
+  destruct (append_all_ftt others first e _ _ Happ Hfirst Hothers) as (e1 & He1 & Hfe).
+  unfold enc_finish in Hfin. rewrite He1 in Hfin. cbn [bind] in Hfin. injection Hfin as _ <-. cbn [concat]. exact Hfe.
+Qed.
+
 (* Property C03 for bodies written one token group per line, first line a time stamp, time stamps increasing:
    however the body is divided into consecutive chunks for the parser threads (any number, any sizes >= 1, covering
    the body), every bit-vector signal loaded from the appended per-thread stores reports exactly what it reports
@@ -433,7 +524,7 @@ Theorem mt_equals_st debug tpes lookup ls len0 rest stop_st e_st b_st t_st encs 
   exists s_st s_mt,
     load_signal lz_decompress b_st id (EncBits bits) = Ok s_st /\
     load_signal lz_decompress b_mt id (EncBits bits) = Ok s_mt /\
-    observe_signal s_st = observe_signal s_mt.
+    observe_signal s_st = observe_signal s_mt /\ t_st = t_mt.
 Proof.
   intros Hok Hst Hcontig Hend Hb Htp Hstop Hrs Hfs Hls Hchunks Hencs Happ Hfm Hlm Hhyp.
   (* the sequential run *)
@@ -457,7 +548,12 @@ Proof.
               Htp Hruns Hopsok Hencs Happ Hfm Hlm) as (Rs & s_mt & HRs & Hload_mt & Hobs_mt).
   destruct (storage_transparent parse_f64 lz_compress lz_decompress lz_ok cap cap_pos cap_u16 id bits Hb tpes ops _ b_st t_st
               Htp (ops_of_ok lookup id bits _ _ _ _ Ho) Hbud Hr Hfs Hls) as (R & s_st & HR & Hload_st & Hobs_st).
-  exists s_st, s_mt. split; [exact Hload_st|]. split; [exact Hload_mt|]. rewrite Hobs_st, Hobs_mt. f_equal. f_equal.
+  exists s_st, s_mt. split; [exact Hload_st|]. split; [exact Hload_mt|]. split.
+  2:{ rewrite (mt_time_table tpes opss encs first others e_mt b_mt t_mt Hruns Hencs Happ Hfm).
+      destruct (time_table_spec parse_f64 lz_compress cap cap_pos tpes ops _ Hr) as (bb & Hf). rewrite Hfs in Hf. injection Hf as _ ->.
+      rewrite accepted_sorted by exact Hsorted. rewrite Hcat, times_of_concat.
+      rewrite Hcat, times_of_concat in Hsorted. apply sorted_pieces in Hsorted. symmetry. now apply accepted_pieces. }
+  rewrite Hobs_st, Hobs_mt. f_equal. f_equal.
   pose proof (rec_concat id bits opss Rs [] Hopt ltac:(cbn [app]; now rewrite <- Hcat) HRs) as Hcs. cbn [length] in Hcs.
   rewrite <- Hcat in Hcs. apply (forall2_decodes_fun bits _ _ _ HR Hcs).
 Qed.
@@ -519,7 +615,7 @@ Theorem read_values_mt_equals_st debug tpes lookup ls max_threads min_chunk b_st
   exists s_st s_mt,
     load_signal lz_decompress b_st id (EncBits bits) = Ok s_st /\
     load_signal lz_decompress b_mt id (EncBits bits) = Ok s_mt /\
-    observe_signal s_st = observe_signal s_mt.
+    observe_signal s_st = observe_signal s_mt /\ t_st = t_mt.
 Proof.
   intros Hok Hst Hb Htp Hs Hls Hm Hlm Hhyp.
   unfold read_values_st in Hs.
